@@ -39,6 +39,8 @@ pub fn programs13() -> Vec<Prog> {
     v.push(Prog::new("crossing-xFE00", p, true));
     // origin x0000: sums below zero have nothing to wrap or saturate into but user space
     v.push(mk("at-x0000", Some(0x0000)));
+    // origin above xFE00: [origin, xFE00) is empty, every write must be refused
+    v.push(mk("at-xFF00", Some(0xFF00)));
     v
 }
 
@@ -126,8 +128,16 @@ pub fn workload(tier: Tier, progs: &[Prog]) -> Vec<Work> {
             }
         }
     }
+    // A3: origin above xFE00 - nothing is user space
+    if progs.len() > 6 {
+        for a in [0x0000u16, 0x0001, 0x0010, 0x0123, 0x00FF, 0x0100, 0x3000, 0x7FFF, 0x8000, 0xFDFF, 0xFE00, 0xFEFF, 0xFF00, 0xFF01, 0xFF05, 0xFFFE, 0xFFFF] {
+            for c in [Cmd::MoveMem(Loc::Abs(a), 0xA5A5), Cmd::Goto(Loc::Abs(a)), Cmd::BreakAdd(Loc::Abs(a)), Cmd::BreakRemove(Loc::Abs(a))] {
+                w.push(Work { prog: 6, pre: 0, action: Action::of(c), space: "A3/origin-above-user-space" });
+            }
+        }
+    }
     // B: label +/- offset and ^offset at the boundaries, from every pre-history (different PCs)
-    for (pi, p) in progs.iter().enumerate().filter(|(i, _)| *i != 4) {
+    for (pi, p) in progs.iter().enumerate().filter(|(i, _)| *i != 4 && *i != 6) {
         let orig = p.image.origin() as i32;
         let mut offs = offsets();
         // offsets that land exactly on origin-1, origin, xFDFF, xFE00 from the labels / PCs
